@@ -633,6 +633,27 @@ theorem C18_unchecked_setter_counterexample :
       = some 5 := by
   decide
 
+/-- root's process seen by the unprivileged caller -/
+def kForeign : Kernel :=
+  { kWitness with capNice := false, capResource := false,
+                  procs := fun q => if q = 7 then some { stWitness with foreign := true } else none }
+
+/-- the other refusals, on concrete kernels (what the live family `live-unpriv` observes on the real
+    code): the realtime I/O class without CAP_SYS_NICE; every set form and `rlimit` on another user's
+    process → AccessDenied, while its niceness, I/O priority and mask can be read -/
+theorem C18_unprivileged_refusals :
+    (stepPy cfg kUnpriv 7 ⟨0, none⟩ (.ionice (some (.enum 1)) (some (.int 2)))).1 = .exc (.accessDenied 7) ∧
+    (stepPy cfg kUnpriv 7 ⟨0, none⟩ (.ionice (some (.enum 2)) (some (.int 2)))).1 = .ok .none ∧
+    (stepPy cfg kForeign 7 ⟨0, none⟩ (.nice (some (.int 3)))).1 = .exc (.accessDenied 7) ∧
+    (stepPy cfg kForeign 7 ⟨0, none⟩ (.ionice (some (.int 2)) (some (.int 4)))).1 = .exc (.accessDenied 7) ∧
+    (stepPy cfg kForeign 7 ⟨0, none⟩ (.cpuAffinity (some (.list, [0])))).1 = .exc (.accessDenied 7) ∧
+    (stepPy cfg kForeign 7 ⟨0, none⟩ (.rlimit (.int 7) none)).1 = .exc (.accessDenied 7) ∧
+    (stepPy cfg kForeign 7 ⟨0, none⟩ (.rlimit (.int 7) (some (.tuple, [1, 2])))).1 = .exc (.accessDenied 7) ∧
+    (stepPy cfg kForeign 7 ⟨0, none⟩ (.nice none)).1 = .ok (.int 0) ∧
+    (stepPy cfg kForeign 7 ⟨0, none⟩ (.ionice none none)).1 = .ok (.ionice 0 0) ∧
+    (stepPy cfg kForeign 7 ⟨0, none⟩ (.cpuAffinity none)).1 = .ok (.cpus [0]) := by
+  decide
+
 /-! ### the sizing loop of the affinity getter (`psutil_proc_cpu_affinity_get`)
 
   `C18_py_get_affinity` holds on every kernel with up to 1024 possible CPU ids: the first
